@@ -30,6 +30,10 @@ pub struct Case {
 	/// definition replaces the main one) | "superseding-right": the other way round
 	#[serde(default)]
 	pub split_global: String,
+	/// "" | global | certificate: that env table (which is meant for the hooks) holds SSL_CERT_FILE / SSL_CERT_DIR pointing to the right
+	/// root: not one of the three documented sources of root certificates
+	#[serde(default)]
+	pub env_roots: String,
 }
 
 fn files_of(kind: &str, dir: &std::path::Path) -> Vec<String> {
@@ -123,6 +127,10 @@ fn exec_in(case: &Case, acmed: &std::path::Path, dir: &std::path::Path) -> Outco
 		let _ = std::fs::write(&inc, format!("[global]\nroot_certificates = {}\n", serde_json::to_string(&files_of(inc_list, dir)).unwrap()));
 		include.push(inc.display().to_string());
 	}
+	let hook_env = json!({"SSL_CERT_FILE": dir.join("right.pem").display().to_string(), "SSL_CERT_DIR": dir.join("right-dir").display().to_string()});
+	if case.env_roots == "global" {
+		global["env"] = hook_env.clone();
+	}
 	let mut ep = json!({"name": "e1", "url": ca.directory_url(), "tos_agreed": true});
 	let e = files_of(&case.endpoint, dir);
 	if !e.is_empty() {
@@ -135,7 +143,8 @@ fn exec_in(case: &Case, acmed: &std::path::Path, dir: &std::path::Path) -> Outco
 		"account": [{"name": "a1", "contacts": [{"mailto": "a@c18.test"}]}],
 		"hook": bb::std_hooks(&coll.sock),
 		"certificate": [{"name": "c1", "account": "a1", "endpoint": "e1", "key_type": "ecdsa-p256", "hooks": ["rec-http-01", "rec-http-01-clean", "rec-post"],
-			"env": {bb::CERT_ENV: "c1"}, "identifiers": [{"dns": "t.c18.test", "challenge": "http-01"}]}],
+			"env": if case.env_roots == "certificate" { json!({bb::CERT_ENV: "c1", "SSL_CERT_FILE": hook_env["SSL_CERT_FILE"], "SSL_CERT_DIR": hook_env["SSL_CERT_DIR"]}) } else { json!({bb::CERT_ENV: "c1"}) },
+			"identifiers": [{"dns": "t.c18.test", "challenge": "http-01"}]}],
 	});
 	let cfg_path = bb::write_config(dir, "acmed.toml", &cfg);
 	let mut opts = bb::daemon_opts(acmed, dir, &cfg_path, "run");
@@ -499,7 +508,7 @@ fn cases(tier: Tier) -> Vec<Case> {
 		for ep in core {
 			for gl in core {
 				for server in ["trusted", "untrusted", "otherhost", "expired"] {
-					out.push(Case { cli: cli.into(), endpoint: ep.into(), global: gl.into(), server: server.into(), system: "empty".into(), url_host: "name".into(), split_global: String::new() });
+					out.push(Case { cli: cli.into(), endpoint: ep.into(), global: gl.into(), server: server.into(), system: "empty".into(), url_host: "name".into(), split_global: String::new(), env_roots: String::new() });
 				}
 			}
 		}
@@ -507,15 +516,15 @@ fn cases(tier: Tier) -> Vec<Case> {
 	// endpoint addressed by a literal IP address
 	for src in ["right", "decoy", "absent"] {
 		for server in ["trusted", "untrusted", "otherhost", "expired"] {
-			out.push(Case { cli: "absent".into(), endpoint: src.into(), global: "absent".into(), server: server.into(), system: "empty".into(), url_host: "ip".into(), split_global: String::new() });
-			out.push(Case { cli: src.into(), endpoint: "absent".into(), global: "decoy".into(), server: server.into(), system: "empty".into(), url_host: "ip".into(), split_global: String::new() });
+			out.push(Case { cli: "absent".into(), endpoint: src.into(), global: "absent".into(), server: server.into(), system: "empty".into(), url_host: "ip".into(), split_global: String::new(), env_roots: String::new() });
+			out.push(Case { cli: src.into(), endpoint: "absent".into(), global: "decoy".into(), server: server.into(), system: "empty".into(), url_host: "ip".into(), split_global: String::new(), env_roots: String::new() });
 		}
 	}
 	// system store
 	for system in ["right", "decoy"] {
 		for server in ["trusted", "untrusted", "otherhost", "expired"] {
 			for src in ["absent", "decoy"] {
-				out.push(Case { cli: src.into(), endpoint: "absent".into(), global: "absent".into(), server: server.into(), system: system.into(), url_host: "name".into(), split_global: String::new() });
+				out.push(Case { cli: src.into(), endpoint: "absent".into(), global: "absent".into(), server: server.into(), system: system.into(), url_host: "name".into(), split_global: String::new(), env_roots: String::new() });
 			}
 		}
 	}
@@ -527,7 +536,7 @@ fn cases(tier: Tier) -> Vec<Case> {
 				for server in ["trusted", "untrusted"] {
 					let mut s = [other.to_string(), other.to_string(), "absent".to_string()];
 					s[pos] = bad.to_string();
-					out.push(Case { cli: s[0].clone(), endpoint: s[1].clone(), global: s[2].clone(), server: server.into(), system: "empty".into(), url_host: "name".into(), split_global: String::new() });
+					out.push(Case { cli: s[0].clone(), endpoint: s[1].clone(), global: s[2].clone(), server: server.into(), system: "empty".into(), url_host: "name".into(), split_global: String::new(), env_roots: String::new() });
 				}
 			}
 		}
@@ -538,7 +547,15 @@ fn cases(tier: Tier) -> Vec<Case> {
 			for server in ["trusted", "untrusted"] {
 				let mut s = ["absent".to_string(), "absent".to_string(), "absent".to_string()];
 				s[pos] = kind.to_string();
-				out.push(Case { cli: s[0].clone(), endpoint: s[1].clone(), global: s[2].clone(), server: server.into(), system: "empty".into(), url_host: "name".into(), split_global: String::new() });
+				out.push(Case { cli: s[0].clone(), endpoint: s[1].clone(), global: s[2].clone(), server: server.into(), system: "empty".into(), url_host: "name".into(), split_global: String::new(), env_roots: String::new() });
+			}
+		}
+	}
+	// variables for the hooks that happen to be the ones OpenSSL reads its default store from
+	for env_roots in ["global", "certificate"] {
+		for server in ["trusted", "untrusted"] {
+			for cli in ["absent", "decoy"] {
+				out.push(Case { cli: cli.into(), endpoint: "absent".into(), global: "absent".into(), server: server.into(), system: "empty".into(), url_host: "name".into(), split_global: String::new(), env_roots: env_roots.into() });
 			}
 		}
 	}
@@ -546,7 +563,7 @@ fn cases(tier: Tier) -> Vec<Case> {
 	for split in ["superseded-right", "superseding-right"] {
 		for server in ["trusted", "untrusted"] {
 			for cli in ["absent", "decoy"] {
-				out.push(Case { cli: cli.into(), endpoint: "absent".into(), global: "absent".into(), server: server.into(), system: "empty".into(), url_host: "name".into(), split_global: split.into() });
+				out.push(Case { cli: cli.into(), endpoint: "absent".into(), global: "absent".into(), server: server.into(), system: "empty".into(), url_host: "name".into(), split_global: split.into(), env_roots: String::new() });
 			}
 		}
 	}
@@ -556,7 +573,7 @@ fn cases(tier: Tier) -> Vec<Case> {
 				for gl in ["absent", "right", "decoy", "right+decoy"] {
 					for server in ["trusted", "untrusted", "otherhost", "expired"] {
 						for system in ["empty", "decoy"] {
-							out.push(Case { cli: cli.into(), endpoint: ep.into(), global: gl.into(), server: server.into(), system: system.into(), url_host: "name".into(), split_global: String::new() });
+							out.push(Case { cli: cli.into(), endpoint: ep.into(), global: gl.into(), server: server.into(), system: system.into(), url_host: "name".into(), split_global: String::new(), env_roots: String::new() });
 						}
 					}
 				}
@@ -567,7 +584,7 @@ fn cases(tier: Tier) -> Vec<Case> {
 }
 
 pub fn run(ctx: &Ctx, rep: &mut Report) {
-	rep.rule = "enumerated: each of the three root-certificate sources (--root-cert, endpoint root_certificates, global root_certificates) absent / holding the right root / holding a decoy root (27 combinations) x server chain {trusted, issued by an unknown root, trusted but for another host name, expired} with an empty system store; system store (SSL_CERT_FILE) holding the right or a decoy root; unreadable and malformed root files at each source with and without the right root elsewhere (thorough adds multi-file lists and a decoy system store); root files whose names contain pattern metacharacters ([ ] ? *) next to look-alike siblings holding the other root; [global] root_certificates defined in the main file and replaced by an included file's definition; the endpoint addressed by name (localhost) or by a literal IP address (127.0.0.1, certificate with an iPAddress SAN); two endpoints with different private roots in one daemon, the second one presenting a chain issued under the first one's root; two endpoint entries for the same URL of which only one lists the private root. history (generated): one daemon, one root file listed on the command line, at the endpoint or globally, whose content is right / another root / garbage / removed / empty during each of 2..6 consecutive attempts (the file is changed while the attempt's post-operation hook is held): requests reach the server during attempt i iff the file holds the right root at that time, and the attempt's outcome follows. The mock CA is TLS-wrapped (leaf + intermediate presented). Oracle: (a) any HTTP request seen by the CA => the chain validates for the URL host under the model (right root listed or in the system store, server chain 'trusted'); (b) model says not trusted => the attempt reports failure and the CA saw zero requests; (c) model says trusted and all files readable => issuance succeeds (each source alone is honoured). Every enumerated case is non-trivial; a history is non-trivial when the trust decision changes between two attempts.".into();
+	rep.rule = "enumerated: each of the three root-certificate sources (--root-cert, endpoint root_certificates, global root_certificates) absent / holding the right root / holding a decoy root (27 combinations) x server chain {trusted, issued by an unknown root, trusted but for another host name, expired} with an empty system store; system store (SSL_CERT_FILE) holding the right or a decoy root; unreadable and malformed root files at each source with and without the right root elsewhere (thorough adds multi-file lists and a decoy system store); root files whose names contain pattern metacharacters ([ ] ? *) next to look-alike siblings holding the other root; [global] root_certificates defined in the main file and replaced by an included file's definition; SSL_CERT_FILE / SSL_CERT_DIR naming the right root in the [global] or certificate env table (variables for hooks, not a source of roots); the endpoint addressed by name (localhost) or by a literal IP address (127.0.0.1, certificate with an iPAddress SAN); two endpoints with different private roots in one daemon, the second one presenting a chain issued under the first one's root; two endpoint entries for the same URL of which only one lists the private root. history (generated): one daemon, one root file listed on the command line, at the endpoint or globally, whose content is right / another root / garbage / removed / empty during each of 2..6 consecutive attempts (the file is changed while the attempt's post-operation hook is held): requests reach the server during attempt i iff the file holds the right root at that time, and the attempt's outcome follows. The mock CA is TLS-wrapped (leaf + intermediate presented). Oracle: (a) any HTTP request seen by the CA => the chain validates for the URL host under the model (right root listed or in the system store, server chain 'trusted'); (b) model says not trusted => the attempt reports failure and the CA saw zero requests; (c) model says trusted and all files readable => issuance succeeds (each source alone is honoured). Every enumerated case is non-trivial; a history is non-trivial when the trust decision changes between two attempts.".into();
 	run_replays::<Case>(ctx, rep, "matrix", &exec);
 	run_replays::<TwoCase>(ctx, rep, "two-endpoints", &exec_two);
 	run_replays::<HistCase>(ctx, rep, "history", &exec_hist);
